@@ -74,8 +74,20 @@ int World::pending_timers() {
 
 void World::drain() {
     uint64_t budget = 200000, n0 = handlers_run;
+    bool first = true;
+    auto injection_point = [&](const char* where) -> bool {
+        if (!((sc.fam & F_FINE) && (sc.fam & F_INJECT) && sc.inject && !injected && cur_prefix && !capped)) return true;
+        // handler-granular injection point: [continue draining | perform the injected action now]
+        std::vector<Event> ev(2); ev[0].k = Event::CONTINUE; ev[1].k = Event::INJECT; ev[1].deviation = true;
+        int idx = choose(ev, *cur_prefix); if (idx < 0) return false;
+        ChoiceRec cr; cr.n = 2; cr.chosen = idx; cr.dev = idx == 1; cr.what = ev[idx].str() + where; cr.digest = 0; choices.push_back(cr);
+        if (idx == 1) { deviations++; last_deviation_ns = now(); tr(std::string("event: inject") + where + "  (deviation)"); injected = true; do_action(*sc.inject, false); }
+        return true;
+    };
     for (;;) {
         if (ioc->stopped()) ioc->restart();
+        // also before the first handler: a completion that the environment has just posted (e.g. a successful write) has not run yet
+        if (first && step_no > 0) { first = false; if (!injection_point(" (before the posted completion runs)")) break; }
         size_t n = ioc->poll_one();
         if (n == 0) {
             if (resolver_busy()) { sched_yield(); continue; }
@@ -86,13 +98,7 @@ void World::drain() {
             if (n == 0) break;
         }
         handlers_run += n;
-        if ((sc.fam & F_FINE) && (sc.fam & F_INJECT) && sc.inject && !injected && cur_prefix && !capped) {
-            // handler-granular injection point: [continue draining | perform the injected action now]
-            std::vector<Event> ev(2); ev[0].k = Event::CONTINUE; ev[1].k = Event::INJECT; ev[1].deviation = true;
-            int idx = choose(ev, *cur_prefix); if (idx < 0) break;
-            ChoiceRec cr; cr.n = 2; cr.chosen = idx; cr.dev = idx == 1; cr.what = ev[idx].str() + " (between handlers)"; cr.digest = 0; choices.push_back(cr);
-            if (idx == 1) { deviations++; last_deviation_ns = now(); tr("event: inject (between handlers)  (deviation)"); injected = true; do_action(*sc.inject, false); }
-        }
+        if (!injection_point(" (between handlers)")) break;
         if (handlers_run - n0 > budget) { vio("C19:livelock:" + sc.family(), "more than 200000 handlers ran without the client becoming quiescent"); capped = true; cap_reason = "livelock"; break; }
     }
 }
@@ -218,7 +224,7 @@ void World::apply(const Event& e) {
     case Event::SHUTDOWN_OK: net->complete_shutdown(st, {}); break;
     case Event::SHUTDOWN_HANG: st->shutdown_hung = true; break;
     case Event::RELEASE: broker->release_held(e.a); break;
-    case Event::APP: { const Action& a = sc.script[script_pos++]; do_action(a, false); break; }
+    case Event::APP: { for (;;) { const Action& a = sc.script[script_pos++]; do_action(a, false); if (!a.chain || script_pos >= sc.script.size()) break; } break; }
     case Event::TIME: { auto t = next_timer(); if (t && *t > now()) vclock::set_ns(*t); break; }
     case Event::INJECT: injected = true; do_action(*sc.inject, false); break;
     default: break;
@@ -279,7 +285,10 @@ void World::do_action(const Action& a, bool from_handler) {
     case Action::CANCEL: running = false; stop_times.push_back(now()); stop_seqs.push_back(net->op_seq); client->cancel(); epoch++; net->stop_marker = true; stopped_phase = true; t_stop = now(); break;
     case Action::DESTROY: running = false; stop_times.push_back(now()); stop_seqs.push_back(net->op_seq); client->destroy(); epoch++; net->stop_marker = true; stopped_phase = true; t_stop = now(); break;
     case Action::MOVE_ASSIGN: running = false; stop_times.push_back(now()); stop_seqs.push_back(net->op_seq); client->move_assign_fresh(); client->brokers(sc.hosts, sc.port); client->credentials(sc.client_id, sc.user, sc.pass); client->keep_alive(sc.keep_alive); epoch++; net->stop_marker = true; stopped_phase = true; t_stop = now(); break;
-    case Action::SIGNAL: if (a.target_op == -2 && !ops.empty()) { Action b = a; b.target_op = int(ops.size()) - 1; do_action(b, from_handler); break; }
+    case Action::SIGNAL: if (a.sig_type == 4 && a.target_op >= 0 && a.target_op < int(ops.size()) && ops[a.target_op].sig && ops[a.target_op].completions == 0 && ops[a.target_op].kind != Action::RECV) {
+            // a terminal signal on any operation cancels the whole client (its slot handler calls client_service::cancel())
+            running = false; stop_times.push_back(now()); stop_seqs.push_back(net->op_seq); net->stop_marker = true; stopped_phase = true; t_stop = now(); }
+        if (a.target_op == -2 && !ops.empty()) { Action b = a; b.target_op = int(ops.size()) - 1; do_action(b, from_handler); break; }
         if (a.target_op >= 0 && a.target_op < int(ops.size()) && ops[a.target_op].sig && ops[a.target_op].completions == 0) { ops[a.target_op].signalled = a.sig_type; ops[a.target_op].t_signal = now();
             ops[a.target_op].sig->emit(a.sig_type == 1 ? asio::cancellation_type::total : a.sig_type == 2 ? asio::cancellation_type::partial : asio::cancellation_type::terminal); } break;
     case Action::BPUB: broker->push(a.tag, uint8_t(a.qos), a.topic, a.payload, a.props); break;
